@@ -82,7 +82,7 @@ pub fn yield_point(desc: &str) -> bool {
 }
 
 thread_local! {
-    /// when set, the next successful strong CAS of this thread is immediately followed by this call (used to
+    /// when set, the next successful CAS (strong or weak) of this thread is immediately followed by this call (used to
     /// bracket a guard that lives entirely inside library code, e.g. the one `impl Debug for Mutex` takes)
     pub static ON_CAS_OK: std::cell::Cell<Option<fn()>> = std::cell::Cell::new(None);
 }
@@ -221,6 +221,11 @@ pub mod atomic {
             if sched {
                 let (tag, old) = match r { Ok(v) => ("ok", v), Err(v) => (if spurious { "spur" } else { "fail" }, v) };
                 log(format!("{} casw{} {}/{} {}>{} {}{}", tid().unwrap(), self.loc(), o(s), o(f), cur, new, tag, old));
+            }
+            if r.is_ok() {
+                if let Some(f) = ON_CAS_OK.with(|c| c.take()) {
+                    f();
+                }
             }
             r
         }
